@@ -14,7 +14,7 @@ import translate_rng as TR
 ESCALATE = True     # cheap thorough tier: run it whenever an anchor file differs from the pinned fingerprint
 RULE = ("for each of the ten optimizer classes and the six estimators: run with an integer seed, then perturb every generator "
         "(python random, numpy global, both numba streams, a complete run of a DIFFERENT optimizer with another seed), then "
-        "re-run with the same integer seed and with RandomState(seed): every evaluated batch, every get_stats() series, the "
+        "re-run with the same integer seed, with the same init_population object, and with RandomState(seed): every evaluated batch, every get_stats() series, the "
         "adaptation state, the result (and for estimators the fitted model and its predictions) must be identical; pairs of "
         "different seeds must differ in the initial population (a collision is reported as inconclusive); the RNG call-site "
         "table is re-extracted from the source and checked by the audit theorem. distinct = (class, configuration, seed).")
@@ -91,8 +91,8 @@ def run(ctx, rep):
     # ---------------- optimizers
     n = ctx.pick(5, 30)
     for kind in LT.KINDS:
-        for _ in range(n):
-            cfg = LT.random_config(ctx.rng, kind, opt_mode="none", iters=ctx.rng.choice([2, 3, 5]))
+        for j in range(n):
+            cfg = LT.random_config(ctx.rng, kind, opt_mode="none", iters=ctx.rng.choice([2, 3, 5]), **(dict(init=True) if j == 0 else {}))
             cfg["optimal_value"] = None
             tr = LT.run_trace(dict(cfg))
             perturb(ctx.rng)
@@ -106,6 +106,12 @@ def run(ctx, rep):
             tr5 = LT.run_trace(dict(cfg, _between_build_and_fit=lambda: perturb(ctx.rng)))
             rep.traces += 1
             compare(tr, tr5, rep, where, "draws / another run between construction and fit()")
+            if cfg["init"] and tr.get("init") is not None:
+                # the caller hands the SAME init_population object to a second optimizer (what the library's own tests do)
+                tr6 = LT.run_trace(dict(cfg, _init_object=tr["init"]))
+                rep.traces += 1
+                rep.count("rerun-same-init-object:" + kind, (kind, cfg["seed"]))
+                compare(tr, tr6, rep, where, "second run given the same init_population object")
             # RandomState in the same state
             perturb(ctx.rng)
             orig_build = LT.build
